@@ -1,6 +1,7 @@
-(* conv: io n *)
+(* conv: io n nat *)
 (* C19 driver.  Commands:
      seqs <header> k (nattempts attempt* )^k   -> per sequence: M tokens | S bits S tokens | guard  #
+     inter ...                                 -> interleaved definitions / creations / applications on several servers
      one <name> opt                            -> one feature registration on the empty registry (M, S, guard)
      isspace c                                 -> py_isspace c
      isspaces lo hi                            -> k, the k code points of [lo,hi) that are whitespace
@@ -93,6 +94,44 @@ let dispatch = function
       put_bool (List.for_all attempt_ok ats);
       put_str "#"
     done
+  | "inter" ->
+    (* header nservers nops (srv op)^nops ; op = 0 async params hid | 1 kind(0 F nameidx opt,1 C nameidx,2 T) | 2 i j
+       -> M: initial R D, nops, per op: res R D of the acting server | S: bits, nops, per op: accepted R | guard *)
+    let tbl = Array.of_list (read_list next_name) in
+    let pf = read_list next_int in
+    let pc = read_list next_int in
+    let bi = List.map (nth_name tbl) (read_list next_int) in
+    let nsrv = next_int () in
+    let ops = read_list (fun () ->
+        let k = next_int () in
+        let x = (match next_int () with
+            | 0 -> let asy = next_bool () in let ps = next_params () in let hid = next_n () in
+              WDef { f_id = hid; f_async = asy; f_params = ps; f_thread = false; f_reg = None }
+            | 1 -> (match next_int () with
+                | 0 -> let nm = nth_name tbl (next_int ()) in let o = next_opt () in WMake (DFeature (nm, o))
+                | 1 -> let nm = nth_name tbl (next_int ()) in WMake (DCommand nm)
+                | _ -> WMake DThread)
+            | _ -> let i = next_nat () in let j = next_nat () in WApply (i, j)) in
+        (k, x)) in
+    let ws = ref (List.init nsrv (fun _ -> empty_world)) in
+    put_registry tbl empty_registry; put_dispatch tbl bi pf pc empty_registry;
+    put_int (List.length ops);
+    List.iter (fun (k, x) ->
+        let (ws', res) = mstep !ws (nat_of_int k) x in
+        ws := ws';
+        let r = (List.nth ws' k).w_reg in
+        put_int (match res with Ok -> 1 | Error _ -> 0);
+        put_registry tbl r; put_dispatch tbl bi pf pc r) ops;
+    put_str "|";
+    let sws = Array.make nsrv sw_empty in
+    let outs = List.map (fun (k, x) ->
+        let (w', refused) = spec_wstep sws.(k) x in sws.(k) <- w'; (w', refused)) ops in
+    put_str ("r" ^ String.concat "" (List.map (fun (_, b) -> if b then "1" else "0") outs));
+    put_int (List.length outs);
+    List.iter (fun (w, refused) -> put_int (if refused then 0 else 1); put_sstate tbl w.sw_state) outs;
+    put_str "|";
+    put_bool (List.for_all (fun (_, x) -> wop_ok x) ops);
+    put_str "#"
   | "one" ->                                  (* name opt -> M: accepted inF inO | S: accepted inF inO | guard *)
     let nm = next_name () in let o = next_opt () in
     let f = { f_id = n_of_int 1; f_async = false; f_params = First (false, ANone); f_thread = false; f_reg = None } in
